@@ -120,10 +120,10 @@ def install_loop_rule(sess, fname, obprefix):
     it.symloop_hook = hook
 
 
-def verify_op(run, tier, sess, which):
+def verify_op(run, tier, sess, which, prefix_root='C04'):
     it = sess.it
     fq = '%s:TracesParser._feed_%s_event' % (MOD, which)
-    prefix = 'C04/_feed_%s_event' % which
+    prefix = '%s/_feed_%s_event' % (prefix_root, which)
     pel = PelContract()
     it.contracts[MOD + ':TracesParser.parse_event_list'] = pel
     install_loop_rule(sess, which, prefix)
@@ -139,10 +139,21 @@ def verify_op(run, tier, sess, which):
         e = world.event(n)
         t, c = EvTid(n), EvCode(n)
         f = sess.func('%s:TracesParser._feed_%s_event' % (MOD, which))
+        before = {k: (v, getattr(v, 'items', None), (tuple(v.keys()) if isinstance(v, PDict) else None), getattr(v, 'writes', None) and len(v.writes))
+                  for k, v in p.fields.items()}
         res = it.call(f, [p, e, st], {})
         S1 = st.snap()
         other = p.fields['on_going_traces']
         ctx.oblige(prefix + '/frame.other-table-untouched', z3.BoolVal(other.writes == 0))
+        changed = []
+        for k, v in p.fields.items():
+            if k in ('on_going_events', 'on_going_traces'):
+                continue
+            b = before.get(k)
+            if b is None or b[0] is not v or getattr(v, 'items', None) is not b[1] or \
+                    (isinstance(v, PDict) and tuple(v.keys()) != b[2]) or (getattr(v, 'writes', None) and len(v.writes)) != b[3]:
+                changed.append(k)
+        ctx.oblige(prefix + '/frame.no-other-parser-state-changes', z3.BoolVal(not changed), info={'changed': changed})
         if which == 'start':
             ctx.oblige(prefix + '/start.returns-nothing', z3.BoolVal(res is None))
             ctx.oblige(prefix + '/start.decodes-nothing', z3.BoolVal(len(pel.calls) == 0))
